@@ -73,3 +73,60 @@ def fixtures(max_size=300000, wellformed=True):
         if os.path.getsize(f) <= max_size:
             out.append((os.path.basename(f), open(f, 'rb').read()))
     return out
+
+
+# ---- the fragmenting-stream model (Model/Frag.v) against std's read_exact and the real reader -------------------
+def rand_sched(rng, n, faults=False, interrupts=True):
+    """a read schedule in the harness/modelrun syntax: g<k> | i | f"""
+    out = []
+    for _ in range(n):
+        x = rng.random()
+        if interrupts and x < 0.12:
+            out.append('i')
+        elif faults and x < 0.15:
+            out.append('f')
+        else:
+            out.append('g%d' % rng.choice([0, 1, 1, 2, 3, 4, 7, 16, 64, 513, 5000]))
+    return ','.join(out) or '-'
+
+
+def rexact_corr(ctx, corr, rng, n):
+    """std::io::Read::read_exact over a scheduled reader vs Frag.read_exact_f: results, positions, schedule use"""
+    cases = []
+    for i in range(n):
+        data = bytes(rng.randrange(256) for _ in range(rng.choice([0, 1, 5, 17, 40, 200])))
+        sched = rand_sched(rng, rng.choice([0, 1, 3, 8, 30]), faults=True)
+        sizes = ','.join(str(rng.choice([0, 1, 2, 3, 4, 8, 13, 64])) for _ in range(rng.randrange(1, 7)))
+        cases.append(('x%d' % i, [data.hex() or '-', sched, sizes]))
+    impl = core.run_parallel(R.run_pvh, 'rexact', cases, n=4)
+    if not getattr(ctx, 'model_ok', True):
+        return
+    model = core.run_parallel(core.run_model, 'rexact', cases, n=4)
+    for cid, f in cases:
+        corr.seen('rexact' + '|'.join(f)); corr.count('read_exact_schedules')
+        if impl.get(cid) != model.get(cid):
+            from .common import first_diff
+            corr.disagreements.append((cid, 'rexact: %s' % first_diff(impl.get(cid), model.get(cid)),
+                                       {'mode': 'rexact', 'fields': f, 'implementation': impl.get(cid), 'model': model.get(cid)}))
+
+
+def readsched_corr(ctx, corr, rng, streams, per_stream, faults, opts=('-', 'h')):
+    """the real reader over a scheduled reader (short reads, Interrupted, optional faults) vs the reader program run
+    by Frag.run_frag over the same schedule: outcome, consumed bytes, game, hashed prefix"""
+    cases = []
+    for i, b in enumerate(streams):
+        for j in range(per_stream):
+            k = rng.choice([0, 2, 10, 60, 400])
+            sched = rand_sched(rng, k, faults=False)
+            if faults and k:
+                parts = sched.split(',')
+                parts[rng.randrange(len(parts))] = 'f'
+                sched = ','.join(parts)
+            o = rng.choice(opts)
+            cases.append(('s%d_%d' % (i, j), [b.hex(), o, sched]))
+    impl, model = both_modes(ctx, 'readsched', cases, corr, parallel=16, hashes=True)
+    for cid, f in cases:
+        corr.seen('readsched' + f[1] + f[2] + f[0][:64]); corr.count('reader_over_schedule' + ('_faulty' if 'f' in f[2].split(',') else ''))
+        if any('MODEL-HASH-MISMATCH' in l for l in model.get(cid, [])):
+            corr.disagreements.append((cid, 'model: hashed bytes differ from consumed bytes', {'mode': 'readsched', 'fields': f}))
+    return impl, model
